@@ -167,7 +167,7 @@ func init() {
 			nA := len(sys) * len(gen.Battery)
 			nB := len(filt) * len(gen.FilterDocs)
 			return &harness.Plan{
-				N:     nA + nB + size(tier, 100000, 1500000),
+				N:     nA + nB + size(tier, 100000, 10000000),
 				Setup: func(c *harness.Ctx) { hooksOn() },
 				Run: func(c *harness.Ctx, k int) {
 					var p *spec.Path
